@@ -184,6 +184,33 @@ func (g *gen) postControllers() {
 			}
 		}
 	}
+	if g.prof.SameNameTypes && g.prof.Models > 0 && len(eps) >= 2 {
+		// a struct twin: same type name, another package, other fields; both used as results
+		var src *Struct
+		for i := range p.Structs {
+			st := &p.Structs[i]
+			if !st.IsError && st.Name[0] >= 'A' && st.Name[0] <= 'Z' && st.Pkg != "hctx" && st.Pkg != "htime" {
+				src = st
+				break
+			}
+		}
+		other := ""
+		if src != nil {
+			for _, pk := range p.Pkgs {
+				if pk.Key != src.Pkg && pk.Key != "hctx" && pk.Key != "htime" && pk.Key != "ctl" && pk.Key != "ctl2" {
+					other = pk.Key
+				}
+			}
+		}
+		if other != "" && g.chance(0.6) {
+			srcT, twinT := Named(src.Pkg, src.Name), Named(other, src.Name)
+			p.Structs = append(p.Structs, Struct{Name: src.Name, Pkg: other, Fields: []Field{{GoName: "TwinOnly", Type: Prim("string"), JSONName: "twinOnly"}, {GoName: "TwinCount", Type: Prim("int64"), JSONName: "twinCount"}}})
+			a, b := eps[0], eps[len(eps)-1]
+			p.Controllers[a.ci].Methods[a.mi].Ret = &srcT
+			p.Controllers[b.ci].Methods[b.mi].Ret = &twinT
+			p.SetFeature("same-struct-name-two-packages")
+		}
+	}
 	if g.prof.SameNameTypes && len(p.Enums) > 0 && len(eps) >= 2 {
 		src := p.Enums[0]
 		other := ""
